@@ -1,6 +1,6 @@
 (* C05 wire functions.
    input  : [ init ops ]      init = [[id confWeight] ...]   (distinct ids)
-     op [1 algo key flips]  Balance(algo,key) with flips = [[ [id kind v] ...] ...] applied after successive Avail() reads
+     op [1 algo key flips]  Balance(algo,key) with flips = [[ [id kind v] ...] ...] applied after successive Avail()/ConnNum() reads
                             (algo 0 WrrSimple 1 WrrSmooth 2 WrrSticky 3 WlcSimple 4 WlcSmooth)
         [2 id b]            SetAvail(b) on backend id
         [3 id d]            connNum += d
@@ -34,11 +34,11 @@ Inductive op :=
 Definition dec_op (v : val) : option op :=
   match v with
   | VL [VZ 1; VZ algo; VB _; sc] =>
-    (* on the wire only WrrSimple carries flips (the harness can inject them only there);
-       algo 5 = WrrSimple run against a wall-clock deadline instead of the probe bound *)
+    (* every algorithm carries a script (the harness gates every Avail()/ConnNum() read of the real code);
+       algo 5 = WrrSimple without gating, run against a wall-clock deadline *)
     match dec_script sc with
     | Some [] => Some (OBal (if algo =? 5 then 0 else algo) [])
-    | Some s => if algo =? 0 then Some (OBal 0 s) else None
+    | Some s => if algo =? 5 then None else Some (OBal algo s)
     | None => None
     end
   | VL [VZ 2; VZ id; VZ b] => Some (OAvail id (negb (b =? 0)))
@@ -96,8 +96,68 @@ Fixpoint run_ops (r : brr) (ops : list val) (hs : list Z) {struct ops} : option 
       end
     end
   end.
+(* ---- gslb cases: input [[7 subs retryMax crossRetry] ops], subs = [[name weight [[id confWeight] ...]] ...]
+        ops [6 algo retry key flips] BalanceGslb.Balance (algo 1 WRR, 2 sticky, 4 WLC; req.RetryTime = retry),
+            [2 id b] SetAvail, [3 id d] connNum += d
+        observation of a Balance: [h r sub retryAfter [state of every sub-cluster ...]] ---- *)
+Definition dec_gsub (v : val) : option gsub :=
+  match v with
+  | VL [VZ n; VZ w; c] => match dec_conf c with Some conf => Some (mkGsub n w (init conf)) | None => None end
+  | _ => None
+  end.
+Inductive gop :=
+| GBal (algo retry : Z) (sc : script)
+| GAvail (id : Z) (b : bool)
+| GConn (id d : Z).
+Definition dec_gop (v : val) : option gop :=
+  match v with
+  | VL [VZ 6; VZ algo; VZ retry; VB _; sc] =>
+    match dec_script sc with
+    | Some s => if ((algo =? 1) || (algo =? 2) || (algo =? 4)) && (0 <=? retry) then Some (GBal algo retry s) else None
+    | None => None
+    end
+  | VL [VZ 2; VZ id; VZ b] => Some (GAvail id (negb (b =? 0)))
+  | VL [VZ 3; VZ id; VZ d] => Some (GConn id d)
+  | _ => None
+  end.
+Definition gmap_brr (f : brr -> brr) (c : gcluster) : gcluster :=
+  mkGc (map (fun s => mkGsub (gname s) (gweight s) (f (gbrr s))) (gsubs c)) (gtotal c) (gsingle c) (gavail c) (grmax c) (gcross c).
+Definition enc_gstate (c : gcluster) : val := VL (map (fun s => enc_state (gbrr s)) (gsubs c)).
+Definition gstep (c : gcluster) (o : gop) (h : Z) : gcluster * val * option (Z * res) :=
+  match o with
+  | GBal algo retry sc =>
+    let '(c', x, sub, rt) := gslb_balance algo h retry sc c in
+    (c', VL [VZ h; enc_res x; VZ sub; VZ rt; enc_gstate c'], Some (algo, x))
+  | GAvail id b => (gmap_brr (set_dyn id (fun x => mkBe (bid x) (bw x) (bcur x) b (bcn x))) c, VZ 0, None)
+  | GConn id d => (gmap_brr (set_dyn id (fun x => mkBe (bid x) (bw x) (bcur x) (bav x) (bcn x + d))) c, VZ 0, None)
+  end.
+Fixpoint run_gops (c : gcluster) (ops : list val) (hs : list Z) {struct ops} : option (list (val * option (Z * res))) :=
+  match ops with
+  | [] => Some []
+  | v :: rest =>
+    match dec_gop v with
+    | None => None
+    | Some o =>
+      let h := match o with GBal _ _ _ => hd 0 hs | _ => 0 end in
+      let hs' := match o with GBal _ _ _ => tl hs | _ => hs end in
+      let '(c', obs, x) := gstep c o h in
+      match run_gops c' rest hs' with Some l => Some ((obs, x) :: l) | None => None end
+    end
+  end.
+(* well-formed cluster: distinct names and backend ids, positive total weight, at most two sub-clusters of weight >= 0
+   (so that the random cross-cluster choice has at most one candidate), small retry numbers *)
+Definition wf_gcluster (subs : list gsub) (rmax cross : Z) : bool :=
+  distinct (map gname subs) && distinct (flat_map (fun s => map bid (backends (gbrr s))) subs) &&
+  (0 <? gtotal (ginit subs rmax cross)) &&
+  Nat.leb (length (filter (fun s => gweight s >=? 0) subs)) 2 &&
+  (0 <=? rmax) && (rmax <=? 3) && (0 <=? cross) && (cross <=? 2).
 Definition run_with (i : val) (hs : list Z) : option (list (val * option (Z * res))) :=
   match i with
+  | VL [VL [VZ 7; VL sv; VZ rmax; VZ cross]; VL ops] =>
+    match all_some (map dec_gsub sv) with
+    | Some subs => if wf_gcluster subs rmax cross then run_gops (ginit subs rmax cross) ops hs else None
+    | None => None
+    end
   | VL [c; VL ops] =>
     match dec_conf c with
     | Some conf => if distinct (map fst conf) then run_ops (init conf) ops hs else None
@@ -112,7 +172,7 @@ Definition run_C05 (i : val) : val :=
 (* hashes reported by the implementation side, in op order *)
 Definition hashes_of (o : val) : list Z :=
   match o with
-  | VL l => flat_map (fun v => match v with VL [VZ h; _; _] => [h] | _ => [] end) l
+  | VL l => flat_map (fun v => match v with VL (VZ h :: _ :: _) => [h] | _ => [] end) l
   | _ => []
   end.
 (* a model result [0 id1 id2 ..] accepts the observation [0 id] when id is one of them *)
@@ -123,7 +183,7 @@ Definition res_agree (m o : val) : bool :=
   end.
 Definition obs_agree (m o : val) : bool :=
   match m, o with
-  | VL [h; r; st], VL [h'; r'; st'] => val_eqb h h' && res_agree r r' && val_eqb st st'
+  | VL (h :: r :: st), VL (h' :: r' :: st') => val_eqb h h' && res_agree r r' && val_eqb (VL st) (VL st')
   | _, _ => val_eqb m o
   end.
 Fixpoint all2 (f : val -> val -> bool) (a b : list val) : bool :=
@@ -149,7 +209,7 @@ Definition returns (r : val) : bool :=
   end.
 Definition obs_ok (v : val) : bool :=
   match v with
-  | VL [_; r; _] => returns r
+  | VL (_ :: r :: _ :: _) => returns r
   | _ => true
   end.
 Definition prop_C05 (i o : val) : bool :=
